@@ -195,10 +195,15 @@ def _strip_comments(s):
     return "".join(out)
 
 
-def grep_gate():
-    """No Admitted/admit/Axiom/Parameter/... anywhere; Variable/Hypothesis only inside Sections."""
+def grep_gate(only=None):
+    """No Admitted/admit/Axiom/Parameter/... ; Variable/Hypothesis only inside Sections.
+    only = iterable of paths relative to coq/ (the import closure of a property file); None = the files of
+    _CoqProject (whole development: tools/final_gate.sh)."""
     bad = []
-    for f in sorted(glob.glob(os.path.join(COQ, "**", "*.v"), recursive=True)):
+    files = [os.path.join(COQ, f) for f in (only if only is not None else coq_files())]
+    for f in sorted(files):
+        if not os.path.exists(f):
+            continue
         txt = _strip_comments(open(f).read())
         depth = 0
         for ln, line in enumerate(txt.split("\n"), 1):
@@ -232,18 +237,25 @@ def coq_makefile():
 
 class _Lock:
     """flock on coq/.buildlock: checks of different properties may run concurrently but share coq/ and
-    ocaml/_build, so every make / extraction / driver build is serialised."""
+    ocaml/_build, so regeneration + make / extraction / driver build are serialised.  Re-entrant within a process."""
+    depth = 0
+    fh = None
 
     def __enter__(self):
         import fcntl
-        self.fh = open(os.path.join(COQ, ".buildlock"), "w")
-        fcntl.flock(self.fh, fcntl.LOCK_EX)
+        if _Lock.depth == 0:
+            _Lock.fh = open(os.path.join(COQ, ".buildlock"), "w")
+            fcntl.flock(_Lock.fh, fcntl.LOCK_EX)
+        _Lock.depth += 1
         return self
 
     def __exit__(self, *a):
         import fcntl
-        fcntl.flock(self.fh, fcntl.LOCK_UN)
-        self.fh.close()
+        _Lock.depth -= 1
+        if _Lock.depth == 0:
+            fcntl.flock(_Lock.fh, fcntl.LOCK_UN)
+            _Lock.fh.close()
+            _Lock.fh = None
 
 
 def coq_make(targets, timeout=3000, keep_going=True):
@@ -297,20 +309,93 @@ STD_AXIOMS = ("functional_extensionality_dep", "proof_irrelevance", "classic", "
               "Eqdep.Eq_rect_eq.eq_rect_eq", "PrimInt63", "PrimFloat", "Uint63", "sig_forall_dec", "sig_not_dec")
 
 
+# ----------------------------------------------------------------------------------------------
+# Generated model parts (translators T1-T3): every Properties file is re-checked against files regenerated
+# from the CURRENT source, whichever check runs
+# ----------------------------------------------------------------------------------------------
+GENERATED = {"Leaf/Gen_leaf.v": "T1", "Alg/StrassenGen.v": "T2", "Sys/GenSites.v": "T3sites", "Sys/GenGlobals.v": "T3globals"}
+_regen_done = {}
+
+
+def import_closure(vfile):
+    """transitive closure of `Require`d M4 modules of a .v file (paths relative to coq/)"""
+    seen, todo = set(), [vfile]
+    while todo:
+        f = todo.pop()
+        if f in seen or not os.path.exists(os.path.join(COQ, f)):
+            continue
+        seen.add(f)
+        txt = _strip_comments(open(os.path.join(COQ, f)).read())
+        for m in re.finditer(r"(?:From\s+M4\s+)?Require\s+(?:Import\s+|Export\s+)?([^.]*(?:\.[A-Za-z_][^.]*)*)\.\s", txt):
+            for tok in m.group(1).split():
+                tok = tok.strip()
+                if tok.startswith("M4."):
+                    tok = tok[3:]
+                parts = tok.split(".")
+                if len(parts) == 2 and os.path.exists(os.path.join(COQ, parts[0], parts[1] + ".v")):
+                    todo.append("%s/%s.v" % (parts[0], parts[1]))
+    return seen
+
+
+def regen(kind):
+    """run one translator against REPO (once per process). -> list of problems (strings)"""
+    if kind in _regen_done:
+        return _regen_done[kind]
+    problems = []
+    try:
+        if kind == "T1":
+            import translate
+            changed, refused = translate.regenerate()
+            problems = ["T1 refuses %s: %s" % (k, w) for k, w in refused.items()]
+        elif kind == "T2":
+            pr = run([sys.executable, os.path.join(VERIF, "tools", "sched_extract.py"), "--repo", REPO,
+                      "--out", os.path.join(COQ, "Alg", "StrassenGen.v")])
+            if pr.returncode != 0:
+                problems = ["T2 refuses strassen.c/mp.c: " + (pr.stdout + pr.stderr)[-1500:]]
+        elif kind == "T3sites":
+            import alloc_sites
+            g = alloc_sites.generate()
+            problems = ["T3 (alloc_sites): %s" % x for x in g["problems"]]
+        elif kind == "T3globals":
+            import globals_extract
+            globals_extract.regenerate()
+    except BuildError as e:
+        problems = ["%s: build failed: %s" % (kind, str(e)[-1500:])]
+    except Exception as e:                       # a translator that crashes on the current source = refusal
+        import traceback
+        problems = ["%s crashed: %s" % (kind, traceback.format_exc()[-1500:])]
+    _regen_done[kind] = problems
+    return problems
+
+
+def regen_for(prop_file):
+    """regenerate the generated files that Properties/<prop_file>.v depends on. -> problems"""
+    problems = []
+    cl = import_closure("Properties/%s.v" % prop_file)
+    for g, kind in GENERATED.items():
+        if g in cl:
+            problems += regen(kind)
+    return problems
+
+
 def prove(prop_file, extra_targets=()):
     """Rebuild Properties/<prop_file>.vo (and deps). Returns dict(obligations, discharged, ok, log,
     assumptions, theorems, failed)."""
     t0 = time.time()
-    gate = grep_gate()
+    gate = grep_gate(import_closure("Properties/%s.v" % prop_file))
     vo = "Properties/%s.vo" % prop_file
-    # force re-check of the property file itself so that Print Assumptions is re-emitted
-    # touching the source makes `make` re-check the file (and re-emit Print Assumptions) without a window in
-    # which a concurrent check sees no .vo
-    try:
-        os.utime(os.path.join(COQ, "Properties", prop_file + ".v"), None)
-    except OSError:
-        pass
-    ok, log = coq_make([vo] + list(extra_targets))
+    with _Lock():
+        # a concurrent check (or tools/try_mutant.py on a patched copy) may have regenerated the generated files
+        # from another tree: regeneration and make are one critical section
+        _regen_done.clear()
+        regen_problems = regen_for(prop_file)
+        # touching the source makes `make` re-check the file (and re-emit Print Assumptions) without a window in
+        # which a concurrent check sees no .vo
+        try:
+            os.utime(os.path.join(COQ, "Properties", prop_file + ".v"), None)
+        except OSError:
+            pass
+        ok, log = coq_make([vo] + list(extra_targets))
     ths = theorems_of("Properties/%s.v" % prop_file)
     vsrc = os.path.join(COQ, "Properties", prop_file + ".v")
     built = (ok and os.path.exists(os.path.join(COQ, vo))
@@ -320,6 +405,8 @@ def prove(prop_file, extra_targets=()):
     failed = []
     if gate:
         failed.append("forbidden constructs: " + "; ".join(gate[:5]))
+    for rp in regen_problems:
+        failed.append("translator: " + rp[:600])
     if not built:
         m = re.findall(r"File \"([^\"]+)\", line (\d+)[^\n]*\n(Error[^\n]*(?:\n[^\n]+){0,6})", log)
         for f, ln, err in m[:5]:
@@ -329,8 +416,9 @@ def prove(prop_file, extra_targets=()):
     if bad_ax:
         failed.append("non-standard axioms: " + "; ".join(bad_ax))
     n = max(1, len(ths))
-    return dict(obligations=n, discharged=n if (built and not gate and not bad_ax) else 0,
-                ok=built and not gate and not bad_ax, log=log, assumptions=assum, theorems=ths, failed=failed,
+    good = built and not gate and not bad_ax and not regen_problems
+    return dict(obligations=n, discharged=n if good else 0,
+                ok=good, log=log, assumptions=assum, theorems=ths, failed=failed,
                 wall=time.time() - t0)
 
 
